@@ -39,7 +39,23 @@ RULE = ("merge: for every shipped calculator description (xtp/share/xtp/xml/*.xm
         "trees (depth<=4, <=40 nodes, repeated sibling names, 0..3 attributes, "
         "UTF-8, inner blanks/tabs/newlines; families with & < > \" ' in values "
         "resp. attributes, mixed content), non-trivial = at least 2 nodes, "
-        "distinct = hash of the printed text. as<T>: fixed literal table.")
+        "distinct = hash of the printed text. as<T>: fixed literal table. "
+        "Added: a second suite of synthetic descriptions (several files in one "
+        "link attribute, links inside packages and list elements, nested and "
+        "multi-tag lists, leaf list elements, unchecked sections); half of the "
+        "user files are written the way a person writes them (pretty printed, "
+        "CRLF, comments also inside values, CDATA, character references, "
+        "<a></a>, single quotes, no/other XML declaration, BOM) and the model "
+        "reads the written text with python's parser; multi-line leaf values "
+        "and blanks between entity references; list elements where the first "
+        "is complete and later ones sparse; setAdditionalChoices; every driver "
+        "call is made on ONE handler object, on a fresh handler and on the "
+        "shared one again (reuse_handler_vs_fresh). Harness families "
+        "rt_mutated (add/add(Property)/deleteChildren/set/getOradd/value/"
+        "attributes, then index check and print->load), copy (copy ctor / "
+        "assignment equal and independent under mutation of either side), "
+        "rt_loaded_twice (one Property object loaded from two files, from "
+        "the same file twice; printing twice).")
 
 XMLDIR = os.path.join(vf.REPO, "xtp", "share", "xtp", "xml")
 
@@ -154,7 +170,13 @@ def run_votca_property(chk, work, n_random):
                "vp_attr_metachar"][i % 4]
         t = rand_tree(rng, fam == "vp_value_metachar", fam == "vp_attr_metachar")
         p = os.path.join(work, "vp_%d.xml" % i)
-        ET.ElementTree(t).write(p, encoding="utf-8", xml_declaration=True)
+        if i % 2:
+            # written the way a person would: pretty printed, comments, CDATA,
+            # character references, CRLF, single quotes ...
+            open(p, "w", encoding="utf-8", newline="").write(
+                orc.to_xml(t, rng))
+        else:
+            ET.ElementTree(t).write(p, encoding="utf-8", xml_declaration=True)
         files.append((fam, p, t))
 
     def one(item):
@@ -167,7 +189,7 @@ def run_votca_property(chk, work, n_random):
         wit = {"family": fam, "file": p, "cmd": "votca_property --file F "
                "--format XML --level 1"}
         try:
-            src = open(p, encoding="utf-8").read()
+            src = open(p, encoding="utf-8", newline="").read()
         except OSError:
             src = ""
         if fam != "vp_shipped":
@@ -290,6 +312,13 @@ def run(chk):
         "0 for int+/float+, inf/nan and out-of-range integers are not generated",
         "literal tab/newline inside attribute values is recorded, not judged "
         "(XML attribute-value normalisation)",
+        "a Property object that is LoadFromXML()ed a second time: the "
+        "unchanged code appends the second document as a further top node; a "
+        "loader that replaced the content would satisfy the statement as well "
+        "- both are accepted, judged is that every loaded document is the "
+        "written tree",
+        "aliasing calls (p.add(child_of_p), p = child_of_p) are outside the "
+        "statement and are not made",
         "csg_defaults.xml.in and the other csg XML files are not option "
         "descriptions of OptionsHandler; they are covered by the votca_property "
         "round trip only"]
@@ -309,24 +338,30 @@ def replay(path):
     work = vf.scratch_dir("C11replay")
     rc = 0
     if "user_xml" in wit:
+        ddir = XMLDIR
+        if wit["calc"].startswith("synth_"):
+            ddir = orc.write_synthetic(os.path.join(work, "synth_defaults"))
         f = os.path.join(work, "user.xml")
-        open(f, "w", encoding="utf-8").write(wit["user_xml"])
+        open(f, "w", encoding="utf-8", newline="").write(wit["user_xml"])
         man = os.path.join(work, "man.txt")
-        open(man, "w").write("replay\tP\t%s\t%s\n" % (wit["calc"], f))
-        res = run_retry([h, "--mode", "merge", "--defaults", XMLDIR + "/",
+        add = wit.get("additional_choices") or []
+        open(man, "w").write("replay\t%s\t%s\t%s%s\n" % (
+            "A" if add else "P", wit["calc"], f,
+            ("\t" + ",".join(add)) if add else ""))
+        res = run_retry([h, "--mode", "merge", "--defaults", ddir + "/",
                          "--manifest", man], env, 600)
         rec = [r for r in res.records() if r.get("t") == "case"]
         print(res.out.strip()[:3000])
         if rec:
             out = orc.Out()
             fam = wit["family"]
-            c = orc.Case("replay", wit["calc"], fam, ET.fromstring(
-                wit["user_xml"].split("?>", 1)[-1]))
+            c = orc.Case("replay", wit["calc"], fam, None)
             c.xml = wit["user_xml"]
+            c.additional = add
             if "injected_fault" in wit:
                 c.fault = (wit["injected_fault"]["kind"],
                            wit["injected_fault"]["option"])
-            orc.judge(out, c, rec[0], orc.load_decl(XMLDIR, wit["calc"]), XMLDIR)
+            orc.judge(out, c, rec[0], orc.load_decl(ddir, wit["calc"]), ddir)
             rc = 1 if out.violations else 0
     elif "printed_xml" in wit or "input_xml" in wit:
         # the tree as it should be (attributes/values properly escaped) is fed
